@@ -261,6 +261,7 @@ def _cwns_ensures(a, r):
 copy_with_new_str = Contract(
     M + "FmtStr.copy_with_new_str", "C14", ["self", "new_str"], kind="method",
     shapes=[Shape("uniform", dict(self=FmtT(), new_str=StrT(plain=False)))],
-    requires=_cwns_requires, ensures=_cwns_ensures, result=FmtT())
+    requires=_cwns_requires, ensures=_cwns_ensures, result=FmtT(),
+    callees={"fmtstr": M + "fmtstr#attributes"})      # (not called today; a body that re-parses the new text through fmtstr meets its ESC[-free precondition)
 copy_with_new_str.setup = _cwns_setup
 copy_with_new_str.enumerate_small = lambda: ({"self": d["self"], "new_str": "zz"} for d in _small_fmtstrs())
